@@ -180,6 +180,16 @@ func (p c10) Run(w *mon.Worker, idx int) mon.Result {
 
 func c10GenStream(r *rand.Rand, family string) c10Case {
 	t := c10Compose(r, c10PickTmpl(r, family == "O5"))
+	if family == "O1" && r.IntN(12) == 0 {
+		// operators that hand out a copy of the document root: the copy stands where the root stands
+		var pr []c10Tmpl
+		for _, u := range c10Tmpls {
+			if u.Op == "pick-root" {
+				pr = append(pr, u)
+			}
+		}
+		t = pr[r.IntN(len(pr))]
+	}
 	c := c10Case{Family: family, Expr: t.Expr, tmpl: t}
 	c.NoSep = r.IntN(5) == 0
 	c.Files = c10PlainFiles(r, t.Shape, true)
